@@ -28,6 +28,7 @@ def main():
     pid = args.prop.upper()
     mod = importlib.import_module("props." + pid.lower())
     lib.assert_repo()
+    lib.prepare_other_tree()
     if args.replay:
         return replay(mod, pid, args.replay)
     t0 = time.time()
